@@ -83,6 +83,13 @@ type muxReq struct {
 	off  int64 // fetch offset
 	seq  int   // arrival index
 	gz   bool  // fetch: answer with a gzip-compressed batch followed by more bytes inside the same message set
+	// fetch, "tail" form: two messages, the value of the last one ends in bytes that spell a frame for the next id
+	tail     bool
+	keyed    bool
+	filler   int // bytes of filler in the last value (when the response is not cut to size by `limit`)
+	limit    int // PartitionMaxBytes of the request
+	oversize bool // make the message set exactly `limit` bytes + the embedded frame (KIP-74: first message returned whole)
+	fetchVer int16 // ApiVersions: the fetch version to advertise
 }
 
 type sentFrame struct {
@@ -106,6 +113,11 @@ type muxBroker struct {
 	r      *rand.Rand
 	stallK   int
 	stallFor time.Duration
+	tailForm bool  // fetch responses in the "tail" form (see tailSet)
+	keyed    bool
+	oversize bool
+	filler   int
+	fetchVer int16
 	rr       *rand.Rand // readLoop's own source (b.r belongs to sendLoop)
 	gzPct    int // per cent of fetch requests answered with the compressed form
 }
@@ -121,7 +133,7 @@ func (b *muxBroker) readLoop() {
 		if err != nil {
 			return
 		}
-		q := muxReq{id: h.Corr, key: h.Key, ver: h.Ver}
+		q := muxReq{id: h.Corr, key: h.Key, ver: h.Ver, fetchVer: b.fetchVer}
 		if msg, err := muxfake.Decode(frame); err == nil {
 			switch m := msg.(type) {
 			case *listoffsets.Request:
@@ -137,6 +149,10 @@ func (b *muxBroker) readLoop() {
 				q.gz = b.rr.Intn(100) < b.gzPct
 				if len(m.Topics) == 1 && len(m.Topics[0].Partitions) == 1 {
 					q.off = m.Topics[0].Partitions[0].FetchOffset
+					q.limit = int(m.Topics[0].Partitions[0].PartitionMaxBytes)
+				}
+				if b.tailForm {
+					q.gz, q.tail, q.keyed, q.filler, q.oversize = false, true, b.keyed, b.filler, b.oversize
 				}
 			}
 		}
@@ -159,7 +175,7 @@ func response(q muxReq, id int32, errCode int16) []byte {
 	switch q.key {
 	case 18:
 		msg = &apiversions.Response{ApiKeys: []apiversions.ApiKeyResponse{{ApiKey: 18, MaxVersion: 0}, {ApiKey: 3, MinVersion: 1, MaxVersion: 1},
-			{ApiKey: 2, MinVersion: 1, MaxVersion: 1}, {ApiKey: 1, MinVersion: 2, MaxVersion: 2}}}
+			{ApiKey: 2, MinVersion: 1, MaxVersion: 1}, {ApiKey: 1, MinVersion: 2, MaxVersion: max16(q.fetchVer, 2)}}}
 	case 2:
 		msg = &listoffsets.Response{Topics: []listoffsets.ResponseTopic{{Topic: "t",
 			Partitions: []listoffsets.ResponsePartition{{Partition: 0, ErrorCode: errCode, Timestamp: int64(q.tag), Offset: int64(q.tag)}}}}}
@@ -180,7 +196,9 @@ func response(q muxReq, id int32, errCode int16) []byte {
 		m.Write(be32(uint32(len(val))))
 		m.Write(val)
 		var set bytes.Buffer
-		if q.gz {
+		if q.tail {
+			set.Write(tailSet(q, id))
+		} else if q.gz {
 			// a compressed batch of three messages (relative offsets inside, the wrapper carries the last absolute
 			// offset) FOLLOWED by more bytes of the same message set.  A caller that closes the Batch after one
 			// record never parses them; they must be discarded from the wire with the rest of the response.  They
@@ -218,12 +236,23 @@ func response(q muxReq, id int32, errCode int16) []byte {
 		var body bytes.Buffer
 		body.Write(be32(uint32(id)))
 		body.Write(be32(0)) // throttle
+		if q.ver >= 7 {
+			body.Write(be16(0)) // top-level error code
+			body.Write(be32(0)) // session id
+		}
 		body.Write(be32(1)) // topics
 		body.Write(kstr("t"))
 		body.Write(be32(1)) // partitions
 		body.Write(be32(0))
 		body.Write(be16(uint16(errCode)))
 		body.Write(be64(uint64(q.off + 10)))
+		if q.ver >= 4 {
+			body.Write(be64(uint64(q.off + 10))) // last stable offset
+			if q.ver >= 5 {
+				body.Write(be64(0)) // log start offset
+			}
+			body.Write(be32(0xffffffff)) // aborted transactions: null
+		}
 		if errCode != 0 {
 			body.Write(be32(0))
 		} else {
@@ -239,6 +268,64 @@ func response(q muxReq, id int32, errCode int16) []byte {
 		panic(err)
 	}
 	return b
+}
+
+func max16(a, b int16) int16 {
+	if a > b {
+		return a
+	}
+	return b
+}
+
+// v1msg renders one magic-1 message-set entry.
+func v1msg(offset int64, key, value []byte) []byte {
+	var m bytes.Buffer
+	m.Write(be32(0)) // crc (not verified by the reader)
+	m.WriteByte(1)   // magic
+	m.WriteByte(0)   // attributes
+	m.Write(be64(1)) // timestamp
+	if key == nil {
+		m.Write(be32(0xffffffff))
+	} else {
+		m.Write(be32(uint32(len(key))))
+		m.Write(key)
+	}
+	m.Write(be32(uint32(len(value))))
+	m.Write(value)
+	return append(append(be64(uint64(offset)), be32(uint32(m.Len()))...), m.Bytes()...)
+}
+
+// tailSet is the "tail" form of a message set: message 1 with a short value, message 2 (the last thing in the
+// response) whose value is `<tag>;` + filler + a frame for the next correlation id carrying the foreign tag.  With
+// `oversize` the filler is sized so that everything before the embedded frame is exactly `limit` bytes — the
+// number of bytes the client asked for at most (a broker returns a first message larger than that whole, KIP-74).
+func tailSet(q muxReq, id int32) []byte {
+	var key []byte
+	if q.keyed {
+		key = []byte("key-5")
+	}
+	prefix := []byte(fmt.Sprintf("%d;", q.tag))
+	emb := embeddedFrame(id + 1)
+	m1 := v1msg(q.off, key, append(append([]byte(nil), prefix...), "m1"...))
+	hdr2 := len(v1msg(0, key, nil))
+	filler := q.filler
+	if q.oversize {
+		filler = q.limit - len(m1) - hdr2 - len(prefix)
+		if filler < 0 {
+			// the limit is too small for two messages: a single oversize message
+			m1 = nil
+			filler = q.limit - hdr2 - len(prefix)
+			if filler < 0 {
+				filler = 0
+			}
+		}
+	}
+	v2 := append(append(append([]byte(nil), prefix...), bytes.Repeat([]byte{'.'}, filler)...), emb...)
+	off2 := q.off + 1
+	if m1 == nil {
+		off2 = q.off
+	}
+	return append(m1, v1msg(off2, key, v2)...)
 }
 
 // foreignTag is a payload nobody asked for.
@@ -583,8 +670,8 @@ func emitMux(sent []sentFrame, reqs []muxReq, evs []kafka.VerifEvent, writeTag m
 			}
 		case "C.Body":
 			o := e.Args[2]
-			if o == "unlock" {
-				o = "ok"
+			if o == "unlock" || o == "short" {
+				o = "ok" // "short": io.ErrShortBuffer of Batch.Read — payload delivered in part, frame drained, conn kept
 			}
 			who := e.Args[1]
 			if who == "batch" {
@@ -634,6 +721,7 @@ func main() {
 		n, _ = strconv.Atoi(os.Args[1])
 	}
 	stressScenarios(r, thorough)
+	fetchScenarios(r, thorough)
 	for i := 0; i < n; i++ {
 		fin := make(chan struct{})
 		go func() {
